@@ -345,6 +345,7 @@ func (in *Interp) resetPath(it WorkItem) {
 	in.timers = nil
 	in.vnow = 0
 	in.sigRegs = nil
+	in.mutexes = nil
 	in.env = map[string]string{}
 	in.depth = 0
 	in.curFrame = nil
